@@ -2299,3 +2299,7 @@ CLAUSES = [
     Clause("C16.misc_helpers", misc_cases, misc_check, tol="alg(1e-12)", doc="to_density_matrix, calculate_vector_matrix_dimension, perturb_vectors, tensor_comb"),
     Clause("C16.rejections", rejection_cases, rejection_check, tol="exact", doc="documented errors are raised; non-square inputs give False"),
 ]
+
+# every toqito call of this property is repeated with column-major copies of its array arguments (engine.call, layout twin)
+for _c in CLAUSES:
+    _c.layout_twin = True
